@@ -321,7 +321,7 @@ class Scheduler:
     """forces a schedule = list of thread ids, one entry per segment.  Only the thread whose id is
     at schedule[pos] runs; a thread ends its segment at the seam the schedule names."""
 
-    def __init__(self, order, deadline_s=30.0):
+    def __init__(self, order, deadline_s=180.0):
         self.order = list(order)
         self.pos = 0
         self.cond = threading.Condition()
@@ -896,12 +896,22 @@ def force_schedule(script, sched_entries, docs, variants):
         runners.append(Runner(tid, cl, S, per_call))
     for r in runners:
         r.start()
+    limit = S.deadline + 60
     for r in runners:
-        r.join(45)
+        r.join(max(1.0, limit - time.time()))
     if any(r.is_alive() for r in runners):
         with S.cond:
             S._fail("thread still alive after join timeout")
-        return None, None, "stuck: " + str(S.failed)
+        frames = sys._current_frames()
+        where = []
+        for r in runners:
+            f = frames.get(r.ident)
+            stack = []
+            while f is not None and len(stack) < 6:
+                stack.append("%s:%d" % (os.path.basename(f.f_code.co_filename), f.f_lineno))
+                f = f.f_back
+            where.append("t%d[%s]" % (r.tid, " < ".join(stack) if r.is_alive() else "done"))
+        return None, None, "stuck: %s; %s" % (S.failed, " ".join(where))
     if S.failed:
         return None, None, S.failed
     for r in runners:
